@@ -176,7 +176,7 @@ struct DecNode {
              uint64_t *raw_hash = nullptr, bool *canary_ok = nullptr, bool *finite = nullptr, bool nulldata_keep_len = false) {
     size_t ss = fmt == FMT_I16 ? 2 : 4;
     size_t cap = (size_t)(frame_size > 0 ? frame_size : 0) * ch;
-    ExactBuf ob(cap * ss, 0x7B);
+    ExactBuf ob(cap * ss, 0xFF);   // float: NaN everywhere, so a returned sample that was never written shows up as non-finite
     ExactBuf pk(data && len > 0 ? (size_t)len : 0);
     const unsigned char *pp = nullptr;
     if (data) { if (len > 0) memcpy(pk.p, data, (size_t)len); pp = pk.p; }
